@@ -322,7 +322,7 @@ static void cmd_schema(char **toks, int ntok)
 /* ------------------------------------------------------------------ */
 /* contexts and references                                             */
 
-#define NCTX 6
+#define NCTX 8
 struct ctx { cfg_t *cfg; struct schema *sch; };
 static struct ctx ctxs[NCTX];
 
@@ -1129,6 +1129,8 @@ static void do_op(char **t, int ntok)
 		if (!fp) die("open_memstream");
 		E(cfg_print(src, fp));
 		fclose(fp);
+		/* the text is read by "another program": the variables behind 'simple' options start from scratch there */
+		if (dst->sch) reset_slots(dst->sch);
 		rc = E(cfg_parse_buf(dst->cfg, buf));
 		fprintf(out, "r roundtrip %d ", rc); enc_n(out, buf, len); fputc('\n', out);
 		free(buf);
@@ -1247,6 +1249,13 @@ static void do_op(char **t, int ntok)
 		fd = open(s1, O_WRONLY | O_CREAT | O_TRUNC, 0666);
 		if (fd < 0 || (l1 && write(fd, s2, l1) != (ssize_t)l1)) die("mkfile %s: %s", s1, strerror(errno));
 		close(fd);
+	} else if (!strcmp(op, "mkfifo")) {
+		NEED(2); s1 = dec(t[1], NULL);
+		if (mkfifo(s1, 0666) != 0) die("mkfifo %s: %s", s1, strerror(errno));
+	} else if (!strcmp(op, "symlink")) {
+		/* <target> <name> */
+		NEED(3); s1 = dec(t[1], NULL); s2 = dec(t[2], NULL);
+		if (symlink(s1, s2) != 0) die("symlink %s: %s", s2, strerror(errno));
 	} else if (!strcmp(op, "chmod")) {
 		NEED(3); s1 = dec(t[1], NULL); chmod(s1, (mode_t)strtol(t[2], NULL, 8));
 	} else if (!strcmp(op, "note")) {
